@@ -256,6 +256,59 @@ def check_rows(ck):
             n_in = len(adts[isf.split("<")[0]]["variants"][0]["fields"]) if isf.split("<")[0] in adts else len(ret["ops"])
             ck.ob("T-arity", key, len(ret["ops"]) == n_in or isf.startswith("("), "%s drops or adds tuple elements" % fn["path"])
             ck.ob("T-no-calls", key, not body.calls() and not has_switch(body), "%s is not a plain field shuffle" % fn["path"])
+    # ---- helper methods of COption / CResult: variant and payload preserved, payload moved exactly once ------------------------------
+    n_help = 0
+    for fn in fns:
+        adt = fn.get("impl_self_adt")
+        if adt not in ("cglue::option::COption", "cglue::result::CResult") or fn.get("impl_trait") or fn["name"] not in ("take", "unwrap", "ok", "is_some", "is_ok", "is_err", "as_ref", "as_mut"):
+            continue
+        n_help += 1
+        key = fn["path"]
+        nm = fn["name"]
+        me = ("sym", "self")
+        ev.hint(me, adt)
+        outs = ev.run(fn, [me])
+        vs = [v["name"] for v in adts[adt]["variants"]]
+        first, second = ("Some", "None") if adt.endswith("COption") else ("Ok", "Err")
+        if not outs or any(o.kind == "stuck" for o in outs):
+            ck.ob("H-helper-summarised", key, False, "%s could not be summarised: %s" % (key, outs))
+            continue
+        for o in outs:
+            var = [c[2] for c in o.conds if c[0] == "discr" and c[1] == me]
+            var = var[0] if var else None
+            pay = ("pay", me, var, 0)
+            calls = [e for e in o.effects if e[0] in ("call", "icall") and "::panicking::" not in e[1] and not e[1].endswith(("panic_fmt", "begin_panic")) and "fmt::" not in e[1]]
+            pay_drops = [e for e in o.effects if e[0] == "drop" and sem.contains(e[1], lambda x: x == pay)]
+            r = sem.strip(o.ret) if o.kind == "ret" else ("panic",)
+            okk = True
+            if nm in ("is_some", "is_ok"):
+                okk = r == ("const", 1 if var == first else 0) and not calls
+            elif nm == "is_err":
+                okk = r == ("const", 1 if var == "Err" else 0) and not calls
+            elif nm == "unwrap":
+                okk = (var == first and sem.strip(r) == pay and not pay_drops) or (var != first and o.kind == "panic") or \
+                      (adt.endswith("CResult") and (o.kind == "panic" or r[0] == "opq"))      # CResult::unwrap delegates to Result::unwrap (std)
+            elif nm == "ok":
+                okk = (var == "Ok" and sem.variant_of(r) == "Some" and sem.strip(r[4][0]) == pay and not pay_drops) or (var == "Err" and sem.variant_of(r) == "None")
+            elif nm == "take":
+                after = sem.strip(ev._read(o.state, ("ext", me), ()))
+                emptied = sem.variant_of(after) == "None"
+                if var == "Some":
+                    # the payload leaves through the return value only: not read twice, not dropped in place
+                    reads = [e for e in calls if e[1].split("::")[-1] in ("read", "read_unaligned", "copy", "copy_nonoverlapping", "clone")]
+                    anyd = [e for e in o.effects if e[0] == "drop" and (sem.contains(e[1], lambda x: x == pay) or sem.contains(e[1], lambda x: x == me) or sem.strip(e[1]) == me)]
+                    okk = emptied and sem.variant_of(r) == "Some" and sem.strip(r[4][0]) == pay and not reads and not anyd
+                else:
+                    okk = emptied and sem.variant_of(r) == "None"
+            elif nm in ("as_ref", "as_mut"):
+                if var == first:
+                    inner = sem.strip(r[4][0]) if r[0] == "agg" and r[4] else ("?",)
+                    okk = sem.variant_of(r) == first and ((inner[0] == "ref" and inner[1] == ("ext", me)) or inner == pay) and not calls
+                else:
+                    okk = (sem.variant_of(r) == second) and not calls
+            ck.ob("H-helper-preserves-variant-and-payload", "%s/%s" % (key, var), okk,
+                  "%s on `%s`: %s" % (key, var, o), sample={"fn": key, "case": var})
+    ck.floor("COption/CResult helper methods", n_help, 8)
     ck.floor("slice view constructors", n_ctor, 3)
     ck.floor("from_raw_parts conversions in slice.rs", n_back, 9)
     ck.floor("utf-8 conversion sites", n_utf, 6)
